@@ -487,6 +487,7 @@ class ParserField:
         self.output_transformer = None
         self.const = unprovided
         self.discriminator_map = {}
+        self.discriminator_keys = []
         self.discriminator_types = ()
         self.positional_only = positional_only
 
@@ -676,6 +677,10 @@ class ParserField:
                         )
 
                     discriminator_map[const] = arg
+                    # the discriminator is looked up under every name the branch itself accepts it by (alias / alias_from)
+                    for key in [self.discriminator, field.name, *field.all_aliases]:
+                        if key not in self.discriminator_keys:
+                            self.discriminator_keys.append(key)
                 self.discriminator_map = discriminator_map
                 self.discriminator_types = tuple(discriminator_map.values())
             else:
@@ -1094,7 +1099,11 @@ class ParserField:
                     )
 
             try:
-                discriminator = value.get(self.discriminator)
+                discriminator = None
+                for key in self.discriminator_keys or [self.discriminator]:
+                    if key in value:
+                        discriminator = value[key]
+                        break
                 matched = discriminator in self.discriminator_map
             except Exception:  # noqa: an un-hashable discriminator value (or a mapping that fails to answer) matches nothing
                 discriminator, matched = None, False
